@@ -28,6 +28,9 @@ pub struct ProcPlan {
     pub kill_delay: u64,
     /// cost of one system call in virtual ns
     pub cost_ns: u32,
+    /// PopenConfig::setpgid (the child is a process-group leader)
+    #[serde(default)]
+    pub setpgid: bool,
 }
 
 #[derive(Clone, Debug, PartialEq)]
